@@ -67,7 +67,13 @@ func c08Check(c *Ctx, cs *c08Case, sample bool) {
 		applyAligns(t0, st.PreAligns)
 		o, _ := mw.Render()
 		c.Keep(o, "an earlier Render through the same wrapper")
-		b.Finalize()
+		if gen.Hash64(spec.Shape(), "finalize")%4 == 0 {
+			// the items reach their final state, and their cells are updated, from inside the judged render
+			b.FinalizeFromCallbacks()
+			c.Rec.Count("staged_cases_whose_items_are_refreshed_by_pre-cell_callbacks_during_the_judged_render", 1)
+		} else {
+			b.Finalize()
+		}
 		setAlignsExactly(t0, cs.Aligns) // final assignment in force; settings of the earlier one are withdrawn
 		c.Rec.Count("staged_cases(render, change, render again through the same wrapper)", 1)
 	} else {
